@@ -618,7 +618,10 @@ def rule_counters(F, R, fns):
             if ok:
                 dm = [d for d in f.calls(lambda x: callee(x) == "nano::solver_t::do_minimize")]
                 ok = len(dm) == 1 and f.cfg.dominates(f.cfg.where_enclosing(c), f.cfg.where_enclosing(dm[0]))
+            in_minimize = f.qn == "nano::solver_t::minimize"
             R.check(ok, "R-C02-3", "clear_statistics@%s" % f.loc(c), f.loc(c), "counters are reset once, before do_minimize",
+                    ("the reset of the function's evaluation counters does not dominate do_minimize (it is conditional): on the other path the state reports every evaluation "
+                     "the function object has ever seen - more than this call performed") if in_minimize else
                     "evaluation counters are reset in %s (evaluations performed before would not be reported)" % f.qn)
 
 
